@@ -48,8 +48,11 @@ type Config struct {
 	Byz      []bool  // Byzantine (puppet) validators; nil = none
 	Dir      string  // scratch directory (WALs, signer files)
 	WalLight bool
-	// ValChanges enables the stub plugin that applies "valchange" ExTxs at EndBlock.
 	PartSize int
+	// RepairProposer: after a restart, restore the validator set's cached proposer (hook H3
+	// VerifSetProposer) to what the pre-crash object had. Used only to keep searching behind the
+	// recorded finding "proposer cache lost on reload"; Net.Repairs counts the uses.
+	RepairProposer bool
 }
 
 type Flight struct {
@@ -86,6 +89,9 @@ type Node struct {
 	Emitted []pbft.ConsensusMessage // every own message that was processed and broadcast
 	Restarts int
 	net     *Net
+
+	savedProposer []byte // round-0 proposer of the current height as the pre-crash object knew it
+	savedHeight   int64
 }
 
 type Net struct {
@@ -95,6 +101,7 @@ type Net struct {
 	InFlight []Flight
 	Dropped  []Flight
 	Steps    int
+	Repairs  int
 	// OnEmit, when set, observes every message an honest node broadcasts (after it has
 	// processed it itself).
 	OnEmit func(n *Node, m pbft.ConsensusMessage)
@@ -103,6 +110,8 @@ type Net struct {
 	// OnQueued observes the messages a node has just signed and queued for itself during the
 	// step that ended (they are in custody, not yet processed or broadcast).
 	OnQueued func(n *Node, ms []pbft.ConsensusMessage)
+	// OnStep observes the end of every processed input of a node (before OnQueued/OnCommit).
+	OnStep func(n *Node)
 }
 
 // ---------------------------------------------------------------------------------------
@@ -227,9 +236,11 @@ func New(cfg Config) *Net {
 			panic(err)
 		}
 		n.Pool = &Mempool{}
+		// like a production node's first start: the genesis state object is saved and then used
+		// directly (not re-loaded from the database)
 		st := sm.MakeGenesisState(n.StateDB, cloneGenesis(gen))
 		st.Save()
-		n.boot()
+		n.boot(st)
 	}
 	return net
 }
@@ -260,16 +271,24 @@ func (n *Node) conf() *viper.Viper {
 
 // boot builds the node's objects from its persistent stores and starts consensus through
 // the real OnStart (WAL height marker, catchupReplay, receive routine spawn, scheduleRound0).
-func (n *Node) boot() {
+func (n *Node) boot(st *sm.State) {
 	pv, err := types.LoadPrivValidator(n.PVFile)
 	if err != nil {
 		panic(fmt.Sprintf("sim: signer file of node %d unreadable: %v", n.ID, err))
 	}
 	n.PV = pv
 	n.Store = bc.NewBlockStore(n.BlockDB, n.ArchDB)
-	st := sm.LoadState(n.StateDB)
 	if st == nil {
-		panic("sim: no state")
+		st = sm.LoadState(n.StateDB)
+		if st == nil {
+			panic("sim: no state")
+		}
+		if n.net.Cfg.RepairProposer && n.savedProposer != nil && st.LastBlockHeight == n.savedHeight {
+			// neutralise the recorded finding "proposer cache lost on reload" (counted)
+			if types.VerifSetProposer(st.Validators, n.savedProposer) {
+				n.net.Repairs++
+			}
+		}
 	}
 	st.SetBlockExecutable(execStub{n})
 	n.wireApp()
@@ -292,6 +311,9 @@ func (n *Node) boot() {
 
 // after is run after every step of the node: own messages go into custody, commits are noted.
 func (n *Node) after() {
+	if n.net.OnStep != nil {
+		n.net.OnStep(n)
+	}
 	fresh := n.Ctl.DrainInternal()
 	n.Own = append(n.Own, fresh...)
 	if len(fresh) > 0 && n.net.OnQueued != nil {
@@ -427,6 +449,9 @@ func (net *Net) Crash(n *Node) {
 	if !n.Honest || !n.Alive {
 		return
 	}
+	cst := n.CS.GetState()
+	n.savedProposer = cst.Validators.Proposer().Address
+	n.savedHeight = cst.LastBlockHeight
 	n.Ctl.Abandon()
 	n.Evsw.Stop()
 	n.Alive = false
@@ -441,7 +466,7 @@ func (net *Net) Restart(n *Node) {
 		return
 	}
 	n.Restarts++
-	n.boot()
+	n.boot(nil)
 }
 
 // Close releases the file handles of all nodes.
